@@ -27,8 +27,9 @@ Odds == {<<>>} \cup {<<[a |-> v, b |-> J]>> : v \in OddKeys}
 Bys == {<<"a">>, <<"a", "b">>, <<"b", "a">>}
 Descs == {[pat |-> Pat(as), odd |-> od, by |-> by] : as \in APats, od \in Odds, by \in Bys}
 
-\* where the odd row stands: early = row 2 (row 1 of a table of one row), middle, late = the last row
-PosOf(pc, n) == IF pc = "early" THEN (IF n > 1 THEN 2 ELSE 1) ELSE IF pc = "middle" THEN (n + 1) \div 2 ELSE n
+\* where the odd row stands: early = row 2 (row 1 of a table of one row), middle, late = two rows before the end, last
+PosOf(pc, n) == IF pc = "early" THEN (IF n > 1 THEN 2 ELSE 1) ELSE IF pc = "middle" THEN (n + 1) \div 2
+                ELSE IF pc = "late" /\ n > 2 THEN n - 2 ELSE n
 ScOf(dd, kk, md, pc) == [pat |-> dd.pat, k |-> kk, mode |-> md, odd |-> dd.odd, ids |-> <<"p", "q">>,
                          pos |-> IF dd.odd = <<>> THEN 0 ELSE PosOf(pc, Len(dd.pat.rows) * kk + 1)]
 Sc == ScOf(d, k, mode, posc)
@@ -39,9 +40,10 @@ LeanDescs == {[pat |-> Pat(as), odd |-> od, by |-> by] :
                   as \in {<<VInt(2), VInt(1), VInt(2)>>, <<VNaN(1), VInt(2), VNaN(2), VInt(2)>>, <<VInt(1), J, VFlt(1, 1)>>},
                   od \in {<<>>, <<[a |-> VNaN(7), b |-> J]>>, <<[a |-> VFlt(2, 1), b |-> J]>>, <<[a |-> None, b |-> J]>>}, by \in {<<"a">>, <<"b", "a">>}}
 Init == /\ d \in (IF Lean THEN LeanDescs ELSE Descs) /\ k \in Ks /\ mode \in {"repeat", "block"}
-        /\ posc \in (IF Lean THEN {"middle"} ELSE {"early", "middle", "late"}) /\ done = FALSE
+        /\ posc \in (IF Lean THEN {"middle"} ELSE {"early", "middle", "late", "last"}) /\ done = FALSE
 Next == done = FALSE /\ done' = TRUE /\ UNCHANGED <<d, k, mode, posc>>
-NextGen == Next /\ (IF mode = "repeat" /\ posc = "early" THEN PrintT(ToJson(d)) ELSE TRUE)
+GenInit == d \in Descs /\ k = 1 /\ mode = "repeat" /\ posc = "early" /\ done = FALSE
+NextGen == Next /\ PrintT(ToJson(d))
 
 ModelCmp(u, by) == [p \in 1..(Len(u.rows) - 1) |-> [kk \in 1..Len(by) |-> CmpModel(u.rows[p][by[kk]], u.rows[p + 1][by[kk]])]]
 Y == IF d.by = <<"a">> THEN "b" ELSE "a"
